@@ -3,6 +3,7 @@ package pass1
 import (
 	"fmt"
 	"log"
+	"math"
 
 	"github.com/HobbyOSs/gosk/internal/ast" // Add ast import
 )
@@ -249,6 +250,13 @@ func processRESB(env *Pass1, operands []ast.Exp) {
 	size := numExp.Value // Value is int64
 	if size < 0 {
 		log.Printf("Error: RESB size cannot be negative (%d).", size)
+		return
+	}
+
+	// ロケーションカウンタは 32bit。これを超える予約はアドレスを溢れさせ、コード生成時に巨大なメモリ確保で
+	// プロセスごと落ちるため、ここで診断を出して打ち切る
+	if size > math.MaxInt32-int64(env.LOC) {
+		log.Printf("Error: RESB size %d does not fit in the 32-bit address space (location counter is 0x%x).", size, env.LOC)
 		return
 	}
 
